@@ -29,22 +29,42 @@ fn wire_of(b: &[u8]) -> Vec<(u16, Vec<u8>)> {
     tlvs(b).map(|t| t.into_iter().map(|(ty, o, l)| (ty, b[o..o + l].to_vec())).collect()).unwrap_or_default()
 }
 
+/// the value of a decoded attribute as a 32-bit digest of its canonical rendering (the data of an Unknown attribute is
+/// left out: whether it is kept is what the unknown-data option decides)
+fn value_digest(a: &StunAttribute) -> u32 {
+    let r = match a {
+        StunAttribute::Unknown(x) => format!("unk:{}", x.attribute_type().as_u16()),
+        other => format!("{}:{}", other.attribute_type().as_u16(), av::render(other)),
+    };
+    let d = md5::compute(r.as_bytes()).0;
+    u32::from_be_bytes([d[0], d[1], d[2], d[3]])
+}
+/// result of one decode: the `I` rendering (size and wire positions), the same with every position combined with the
+/// digest of the decoded value (position * 2^32 + digest), and (size, positions)
 fn one(dec: &MessageDecoder, b: &[u8], ud: bool, ud_ok: &mut bool) -> (String, Option<(usize, Vec<usize>)>) {
+    let (a, _, c) = one_v(dec, b, ud, ud_ok);
+    (a, c)
+}
+fn one_v(dec: &MessageDecoder, b: &[u8], ud: bool, ud_ok: &mut bool) -> (String, String, Option<(usize, Vec<usize>)>) {
     match guarded(|| dec.decode(b)) {
-        Err(()) => ("PANIC".into(), None),
-        Ok(Err(_)) => ("ERR".into(), None),
+        Err(()) => ("PANIC".into(), "PANIC".into(), None),
+        Ok(Err(_)) => ("ERR".into(), "ERR".into(), None),
         Ok(Ok((m, size))) => {
             let w = wire_of(&b[..size.min(b.len())]);
             match map_positions(m.attributes(), &w, ud) {
                 None => {
                     // distinguish a wrong unknown-data payload from an unmappable result
                     if map_positions(m.attributes(), &w, !ud).is_some() { *ud_ok = false }
-                    ("MAP".into(), None)
+                    ("MAP".into(), "MAP".into(), None)
                 }
-                Some(p) => (
-                    format!("OK {} {}", size, if p.is_empty() { "-".to_string() } else { p.iter().map(|x| x.to_string()).collect::<Vec<_>>().join(",") }),
-                    Some((size, p)),
-                ),
+                Some(p) => {
+                    let pv: Vec<String> = p.iter().zip(m.attributes().iter()).map(|(pos, a)| (((*pos as u64) << 32) | value_digest(a) as u64).to_string()).collect();
+                    (
+                        format!("OK {} {}", size, if p.is_empty() { "-".to_string() } else { p.iter().map(|x| x.to_string()).collect::<Vec<_>>().join(",") }),
+                        format!("OK/{}/{}", size, if pv.is_empty() { "-".to_string() } else { pv.join(",") }),
+                        Some((size, p)),
+                    )
+                }
             }
         }
     }
@@ -53,17 +73,20 @@ fn one(dec: &MessageDecoder, b: &[u8], ud: bool, ud_ok: &mut bool) -> (String, O
 fn run_case(out: &mut Out, key: &[u8], b: &[u8]) {
     out.rec(&format!("C {} {}", hex(key), hex(b)));
     let mut res = vec![];
+    let mut resv = vec![];
     let mut ud_ok = true;
-    let (r0, d0) = one(&MessageDecoderBuilder::default().build(), b, false, &mut ud_ok);
+    let (r0, v0, d0) = one_v(&MessageDecoderBuilder::default().build(), b, false, &mut ud_ok);
     res.push(r0);
+    resv.push(v0);
     let mut all_cfg = None;
     for k in [false, true] {
         for v in [false, true] {
             for u in [false, true] {
                 for n in [false, true] {
-                    let (r, d) = one(&decoder(k, v, u, n, key), b, u, &mut ud_ok);
+                    let (r, rv, d) = one_v(&decoder(k, v, u, n, key), b, u, &mut ud_ok);
                     if k && !v && !u && n { all_cfg = d.clone() }
                     res.push(r);
+                    resv.push(rv);
                 }
             }
         }
@@ -71,7 +94,7 @@ fn run_case(out: &mut Out, key: &[u8], b: &[u8]) {
     out.imp(&res.join("|"));
     // the public verification API on the first integrity / fingerprint attribute
     let hk = HMACKey::new_short_term(std::str::from_utf8(key).unwrap()).unwrap();
-    let mut facts = vec![format!("ud={}", ud_ok as u8)];
+    let mut facts = vec![format!("ud={}", ud_ok as u8), format!("pv={}", resv.join("|"))];
     let all = guarded(|| decoder(true, false, false, true, key).decode(b)).ok().and_then(|r| r.ok());
     let verdict = |name: &str, f: &dyn Fn(&StunMessage) -> Option<bool>| -> String {
         match &all {
@@ -197,6 +220,14 @@ fn gen_typed_msg(rng: &mut Rng, key: &[u8], round: u64) -> Vec<u8> {
         let specs = av::gen_specs(rng, round, ty, fam, false);
         if specs.is_empty() { continue }
         let tok = rng.pick(&specs).clone();
+        // string kinds: half of the time the generated bytes go on the wire as they are (not through the constructor, which
+        // normalises them): non-NFC sequences, non-ASCII spaces, un-trimmed quoted strings reach the typed decoders
+        if matches!(fam, av::Fam::Text | av::Fam::Quoted | av::Fam::User) && rng.chance(1, 2) {
+            if let Some((_, h)) = tok.rsplit_once(':') {
+                let v = unhex(h);
+                if v.len() <= 780 { r.push(ty, &v); continue }
+            }
+        }
         let Some(attr) = av::build(ty, &tok) else { continue };
         match av::encode_value(&attr, &txid, 800) {
             Ok(Some(v)) if v.len() <= 780 => { r.push(ty, &v); }
@@ -204,6 +235,33 @@ fn gen_typed_msg(rng: &mut Rng, key: &[u8], round: u64) -> Vec<u8> {
         }
     }
     let tail = *rng.pick(&["", "M", "S", "F", "MS", "MF", "MSF", "SF"]);
+    for c in tail.bytes() { match c { b'M' => { r.push_mi(key); } b'S' => { r.push_sha(key); } _ => { r.push_fp(); } } }
+    r.bytes
+}
+
+/// a message whose string attributes carry, verbatim on the wire, text that Unicode-aware code treats specially
+/// (non-ASCII white space, combining sequences that are not NFC, compatibility characters, zero-width characters), with a
+/// valid integrity / fingerprint tail: the typed decoders must give the same values whatever the decoder options are
+fn gen_string_msg(rng: &mut Rng, key: &[u8]) -> Vec<u8> {
+    let txid: [u8; 12] = rng.bytes(12).try_into().unwrap();
+    let mut r = Raw::new(rng.below(0x1000) as u16, rng.below(4) as u8, &txid);
+    let text = |rng: &mut Rng| -> Vec<u8> {
+        let mut sb = String::new();
+        for _ in 0..rng.range(1, 8) {
+            if rng.chance(1, 2) { sb.push((b'a' + rng.below(26) as u8) as char) }
+            else { sb.push(char::from_u32(*rng.pick(&av::SPECIAL_CHARS)).unwrap_or('x')) }
+        }
+        sb.into_bytes()
+    };
+    for _ in 0..rng.range(1, 3) {
+        match rng.below(5) {
+            0 | 1 => { let v = text(rng); r.push(0x0006, &v); }
+            2 => { let v = text(rng); r.push(0x8022, &v); }
+            3 => { let v = text(rng); r.push(*rng.pick(&[0x0014u16, 0x0015]), &v); }
+            _ => { let mut v = vec![0, 0, 4, 1]; v.extend_from_slice(&text(rng)); r.push(0x0009, &v); }
+        }
+    }
+    let tail = *rng.pick(&["M", "S", "MS", "MF", "MSF", "", "F"]);
     for c in tail.bytes() { match c { b'M' => { r.push_mi(key); } b'S' => { r.push_sha(key); } _ => { r.push_fp(); } } }
     r.bytes
 }
@@ -275,7 +333,7 @@ fn main() {
     let mine = n / args.shards + if args.shard < n % args.shards { 1 } else { 0 };
     let (mut structured, mut mutated, mut random, mut faults) = (0u64, 0u64, 0u64, 0u64);
     for i in 0..mine {
-        let base = if rng.chance(1, 2) { gen_typed_msg(&mut rng, &key, i) } else { gen_msg(&mut rng, &key) };
+        let base = match rng.below(5) { 0 => gen_string_msg(&mut rng, &key), 1 | 2 => gen_typed_msg(&mut rng, &key, i), _ => gen_msg(&mut rng, &key) };
         match rng.below(10) {
             0..=3 => { run_case(&mut out, &key, &base); structured += 1 }
             4..=7 => { let m = mutate(&mut rng, &base); let m = if rng.chance(1, 4) { mutate(&mut rng, &m) } else { m }; run_case(&mut out, &key, &m); mutated += 1 }
